@@ -162,11 +162,17 @@ pub fn run(tier: Tier) -> i32 {
         }
     }
     for (ci, ctx) in CONTEXTS.iter().enumerate() {
-        for h in heads.iter() {
+        for (hi, h) in heads.iter().enumerate() {
             for l in lists.iter() {
                 // quick tier: two-operand lists in the non-default contexts only for every third head
                 // quick tier: the three "inside a body / arm" contexts take operand lists of length <= 1
                 if !tier.thorough() && ci >= 10 && l.len() > 1 {
+                    continue;
+                }
+                // quick tier: in the contexts other than the plain one, two-operand lists for every
+                // second head (alternating with the context, so that every head meets them in half
+                // of the contexts)
+                if !tier.thorough() && ci >= 1 && l.len() == 2 && (hi + ci) % 2 == 1 {
                     continue;
                 }
                 let line = if l.is_empty() { h.clone() } else { format!("{} {}", h, l.join(", ")) };
@@ -187,6 +193,16 @@ pub fn run(tier: Tier) -> i32 {
         ".endmacro", ".elif 0", "lab:", "rjmp lab", ".db 1", ".byte 1", ".equ e = 1", ".set s = s + 1", ".def t = r16", ".undef t", ".device ATtiny13",
         ".include \"nofile.inc\"", ".error \"x\"", ".message \"x\"", "#endif",
     ];
+    // 1a. macro parameters of every spelling on a body line of a macro that is called with two
+    //     arguments (and one called with none): as the only operand and behind a register
+    for h in heads.iter() {
+        for ptext in ["@0", "@1", "@2", "@9", "@10", "@12", "@05", "@00", "@@1", "@", "@x", "@1@0", "@19", "@-1", "\"@1\"", "@1 ; @10"] {
+            for (cname, pre, post) in [("in-called-macro-body", ".macro wrap_m\n", ".endm\nwrap_m 1, 2\n"), ("in-macro-body-called-without-arguments", ".macro wrap_n\n", ".endm\nwrap_n\n"), ("in-macro-body-called-with-one-argument", ".macro wrap_o\n", ".endm\nwrap_o r16\n")] {
+                push(&mut cases, &mut meta, format!("{}{} {}\n{}", pre, h, ptext, post), Meta { origin: "single-line", head: h.clone(), nops: 1, ctx: cname, probe: String::new() });
+                push(&mut cases, &mut meta, format!("{}{} r16, {}\n{}", pre, h, ptext, post), Meta { origin: "single-line", head: h.clone(), nops: 2, ctx: cname, probe: String::new() });
+            }
+        }
+    }
     let n_before_struct = cases.len();
     {
         let all_lines: Vec<&str> = core_lines.iter().chain(extra_lines.iter()).copied().collect();
